@@ -302,6 +302,9 @@ fn cmd_run(get: &dyn Fn(&str) -> Option<String>) -> i32 {
     let skip = Arc::new(skip);
     // crash attribution: every worker records the run index it is executing in <prefix>.<worker>
     let progress_prefix: Option<String> = get("--progress");
+    if let Some(f) = get("--phase-file") {
+        let _ = exec::PHASE_FILE.set(f);
+    }
     let det_samples: u64 = get("--determinism").map(|s| s.parse().unwrap()).unwrap_or(if tier == Tier::Quick { 64 } else { 1024 });
 
     // oracle / workload self-validation (a failure is a harness error, never a violation)
